@@ -42,6 +42,54 @@ def validate(v, trace, name):
     return len(distinct)
 
 
+def comment_lines(v, wd, thorough):
+    """The line-based comment parsers (CommentLines.tla): model checking, four named deviations refuted, and every
+    sequence of <= 5 line kinds from TLC rendered in nine language/comment styles and parsed by the real parsers."""
+    mc = os.path.join(SPEC, "mc", "MC_CommentLines.tla")
+    for cfg in ("dev_tilde", "dev_closeany", "dev_uncounted", "dev_untracked"):
+        rd = common.tlc(mc, os.path.join(SPEC, "mc", f"MC_CommentLines_{cfg}.cfg"), "c04_cl_" + cfg, workers=2, timeout=600, coverage=False)
+        if rd.violated != "OfferedIsProse":
+            raise common.ToolError(f"MC_CommentLines_{cfg}: TLC did not refute OfferedIsProse (vacuous invariant)")
+    for cfg in (("thorough",) if thorough else ("quick",)) + ("counted",):
+        r = common.tlc(mc, os.path.join(SPEC, "mc", f"MC_CommentLines_{cfg}.cfg"), "c04_cl_" + cfg, workers=8, timeout=3000, coverage=False)
+        if r.violated:
+            v.failure({"kind": "model", "invariant": r.violated, "cfg": cfg}, {"tlc_output": r.output[-3000:]})
+        v.add_mc("MC_CommentLines/" + cfg, r, "every comment block of <= MaxLines lines over {prose, directive, backtick fence, tilde fence} x leader "
+                 "and body widths: the words offered are exactly the prose outside fenced blocks, at their true offsets (OfferedIsProse)")
+    rg = common.tlc(mc, os.path.join(SPEC, "mc", "MC_CommentLines_gen.cfg"), "c04_cl_gen", workers=4, timeout=900, coverage=False)
+    cases = os.path.join(wd, "line_cases.ndjson")
+    n = 0
+    with open(cases, "w") as f:
+        for x in rg.prints:
+            p = common.parse_print(x)
+            if p and p[0] == "CASE":
+                n += 1
+                f.write(json.dumps(p[1]) + "\n")
+    if n < 1000:
+        raise common.ToolError(f"MC_CommentLines_gen produced only {n} cases")
+    trace = os.path.join(wd, "trace_lines.ndjson")
+    rc, out, err = common.run_hv(["c04lines", "--cases", cases, "--out", trace, "--stride", 1 if thorough else 3], timeout=3600)
+    if rc != 0:
+        raise common.ToolError("hv c04lines failed: " + err[-2000:])
+    files = common.split_ndjson(trace, 4000, wd, "cl")
+    res = common.validate_traces_parallel(os.path.join(SPEC, "trace", "Trace_CommentLines.tla"), os.path.join(SPEC, "trace", "Trace_CommentLines.cfg"),
+                                          files, "c04_cl", procs=6)
+    nev = 0
+    for f, consumed, rejects in res:
+        evs = common.read_ndjson(f)
+        if consumed != len(evs):
+            raise common.ToolError(f"trace {f}: consumed {consumed} of {len(evs)} events")
+        nev += len(evs)
+        for rej in rejects:
+            e = evs[rej[0] - 1]
+            v.failure({"kind": rej[1], "level": "comment-lines", "lang": e.get("lang"), "style": e.get("style"),
+                       "fences": sorted({k for k in e.get("kinds", []) if k in ("bt", "tl")})}, {"event": e, "comment_lines": True})
+    v.cov["evaluations"] += nev
+    v.cov["traces_validated_against_impl"] += nev
+    v.cov["tlc_cases_replayed"] = v.cov.get("tlc_cases_replayed", 0) + n
+    v.cov["comment_line_blocks"] = {"kind_sequences_from_tlc": n, "rendered_and_parsed": nev}
+
+
 def run(v):
     wd = common.workdir("c04")
     thorough = v.tier == "thorough"
@@ -58,6 +106,7 @@ def run(v):
     if rc != 0:
         raise common.ToolError("hv c04 failed: " + err[-2000:])
     v.cov["distinct_nontrivial"] = validate(v, trace, "t")
+    comment_lines(v, wd, thorough)
     v.cov["rule"] = ("files rendered from a segment grammar per front-end - the 22 comment languages (syntactically valid code "
                      "lines with multi-byte string literals, line comments, block comments where the language has them, "
                      "ignore-marked comments, indentation), Markdown with both link options (headings, lists, tables, links, "
@@ -76,6 +125,20 @@ def replay(v, path):
     e = rep["replay"]["event"]
     print(json.dumps(e, ensure_ascii=False)[:3000])
     wd = common.workdir("c04_replay")
+    if rep["replay"].get("comment_lines"):
+        # the recorded block is parsed again by the real parser
+        cases = os.path.join(wd, "line_cases.ndjson")
+        with open(cases, "w") as f:
+            f.write(json.dumps({"kinds": e["kinds"]}) + "\n")
+        trace = os.path.join(wd, "trace_lines.ndjson")
+        rc, out, err = common.run_hv(["c04lines", "--cases", cases, "--out", trace])
+        consumed, rejects, _ = common.validate_trace(os.path.join(SPEC, "trace", "Trace_CommentLines.tla"),
+                                                     os.path.join(SPEC, "trace", "Trace_CommentLines.cfg"), trace, "c04_clr", timeout=300)
+        evs = common.read_ndjson(trace)
+        for rej in rejects:
+            x = evs[rej[0] - 1]
+            v.failure({"kind": rej[1], "level": "comment-lines", "lang": x.get("lang"), "style": x.get("style")}, {"event": x, "comment_lines": True})
+        return v.finish()
     trace = os.path.join(wd, "trace.ndjson")
     with open(trace, "w") as f:
         f.write(json.dumps(e) + "\n")
